@@ -9,12 +9,48 @@ package sync
 import (
 	"fmt"
 	stdsync "sync"
+	"unsafe"
 
 	rt "github.com/runreveal/pql/verifrt"
 )
 
 type Locker = stdsync.Locker
-type WaitGroup = stdsync.WaitGroup
+
+// WaitGroup: under the scheduler a counter with a blocking Wait; otherwise the real one.
+type WaitGroup struct {
+	n    int
+	real stdsync.WaitGroup
+}
+
+func (w *WaitGroup) label() string { return rt.ObjLabel("waitgroup", uintptr(unsafe.Pointer(w))) }
+
+func (w *WaitGroup) Add(d int) {
+	if !rt.Active() || rt.Running() < 0 {
+		w.real.Add(d)
+		return
+	}
+	rt.SyncPoint(w.label(), "waitgroup", true)
+	w.n += d
+	if w.n < 0 {
+		panic("sync: negative WaitGroup counter")
+	}
+	if w.n == 0 {
+		rt.Unblock(w)
+	}
+}
+
+func (w *WaitGroup) Done() { w.Add(-1) }
+
+func (w *WaitGroup) Wait() {
+	if !rt.Active() || rt.Running() < 0 {
+		w.real.Wait()
+		return
+	}
+	rt.SyncPoint(w.label(), "waitgroup", false)
+	for w.n > 0 {
+		rt.Block(w, w.label())
+	}
+}
 
 type Once struct {
 	done    bool
